@@ -94,7 +94,10 @@ Reduce == /\ pc = "returned" /\ reduced = <<>>
           /\ reduced' = FoldCat(results, 1)
           /\ UNCHANGED <<ntasks, workers, raises, status, results, order, pc, exc>>
 
-Next == Inline \/ (\E i \in 1..NTasksMax : i <= ntasks /\ (Start(i) \/ Finish(i) \/ Collect(i))) \/ Return \/ Reduce
+StartAny == \E i \in 1..NTasksMax : i <= ntasks /\ Start(i)
+FinishAny == \E i \in 1..NTasksMax : i <= ntasks /\ Finish(i)
+CollectAny == \E i \in 1..NTasksMax : i <= ntasks /\ Collect(i)
+Next == Inline \/ StartAny \/ FinishAny \/ CollectAny \/ Return \/ Reduce
 Spec == Init /\ [][Next]_pvars
 FairSpec == Spec /\ WF_pvars(Next)
 
